@@ -1,6 +1,8 @@
 import SV.Model.C01
 import SV.Model.C02
 import SV.Model.C11
+import SV.Model.C07
+import SV.Model.C06
 import SV.Model.C05
 import SV.Model.C14
 import SV.Model.C13
@@ -14,6 +16,7 @@ import SV.Model.C08
 import SV.Model.C16
 import SV.Model.C17
 import SV.Model.C19
+import SV.Model.C20
 import SV.Model.PolyOps
 /-!
 `svdriver <property>`: reads one request per line on stdin, prints the model's response.
@@ -26,6 +29,8 @@ def dispatch (prop : String) : Option (String → String) :=
   | "C01" => some C01.Driver.handle
   | "C02" => some C02.Driver.handle
   | "C11" => some C11.Driver.handle
+  | "C07" => some C07.Driver.handle
+  | "C06" => some C06.Driver.handle
   | "C05" => some C05.Driver.handle
   | "C14" => some C14.Driver.handle
   | "C13" => some C13.Driver.handle
@@ -39,6 +44,7 @@ def dispatch (prop : String) : Option (String → String) :=
   | "C16" => some C16.handle
   | "C17" => some C17.Driver.handle
   | "C19" => some C19.Driver.handle
+  | "C20" => some C20.handle
   | "POLY" => some PolyOps.handle
   | _ => none
 
